@@ -269,3 +269,53 @@ fn fp_tag(f: &mut crate::runner::Fp, t: &TagV) {
 pub fn _j(_: &J) -> J {
     json!(null)
 }
+
+/// The properties' own exclusion, on call histories: an element whose declared path has a
+/// placeholder (or whose id is outside the specification) written directly after the End of an
+/// unknown-size master — a reader cannot tell whether it is inside or after that master.
+pub fn ambiguous_history(spec: &crate::spec::SpecTable, ops: &[WOp]) -> bool {
+    // (id, unknown-size) of open masters; Full masters are known-size and self-contained
+    let mut stack: Vec<bool> = Vec::new();
+    let mut just_closed_unknown = false;
+    fn first_is_ambiguous(spec: &crate::spec::SpecTable, id: u64) -> bool {
+        spec.get(id).map(|e| e.has_global()).unwrap_or(true)
+    }
+    for op in ops {
+        match op {
+            WOp::Write(t, o) => match &t.val {
+                Val::Start => {
+                    if just_closed_unknown && first_is_ambiguous(spec, t.id) {
+                        return true;
+                    }
+                    just_closed_unknown = false;
+                    stack.push(matches!(o, Opt::Unknown));
+                }
+                Val::End => {
+                    let unk = stack.pop().unwrap_or(false);
+                    just_closed_unknown = unk;
+                }
+                _ => {
+                    if just_closed_unknown && first_is_ambiguous(spec, t.id) {
+                        return true;
+                    }
+                    just_closed_unknown = false;
+                }
+            },
+            WOp::WriteUnknownDeprecated(t) => {
+                if just_closed_unknown && first_is_ambiguous(spec, t.id) {
+                    return true;
+                }
+                just_closed_unknown = false;
+                stack.push(true);
+            }
+            WOp::WriteRaw(id, _) => {
+                if just_closed_unknown && first_is_ambiguous(spec, *id) {
+                    return true;
+                }
+                just_closed_unknown = false;
+            }
+            WOp::Flush => {}
+        }
+    }
+    false
+}
